@@ -883,7 +883,10 @@ func replaySeq(b fsBehaviour, unit time.Duration, entry int, variant int) (mis [
 		xctx, xcancel := context.WithCancel(ctxFor(want.Ck))
 		rec.limit, rec.cancel = 20*len(want.Ev)+200, xcancel
 		rec.runaway.Store(false)
-		ex := failsafe.NewExecutor[string](bs.policies...).WithContext(xctx)
+		ex := failsafe.NewExecutor[string](bs.policies...)
+		if rec.alt&2 == 0 {
+			ex = ex.WithContext(xctx) // (alt&2: the context is attached after the listeners, and a nil context changes nothing)
+		}
 		if rec.registered("ExecOnSuccess") {
 			ex = ex.OnSuccess(func(e failsafe.ExecutionDoneEvent[string]) {
 				verdicts = append(verdicts, "success")
@@ -898,6 +901,9 @@ func replaySeq(b fsBehaviour, unit time.Duration, entry int, variant int) (mis [
 		}
 		if rec.registered("ExecOnDone") {
 			ex = ex.OnDone(func(e failsafe.ExecutionDoneEvent[string]) { rec.info("ExecOnDone", 0, e, e.Result, e.Error, nil) })
+		}
+		if rec.alt&2 != 0 {
+			ex = ex.WithContext(xctx).WithContext(nil)
 		}
 		// the spec's log restricted to the listeners registered in this variant
 		{
